@@ -478,6 +478,11 @@ class Concatenator(Group):  # pylint: disable=too-many-public-methods
             if child not in self._children:
                 continue
 
+            if not isinstance(child, (Concatenated, ConcatenatedPropertyGroup)):
+                # Ordinary children (comments, files) are stored like any group's
+                super().remove_children([child])
+                continue
+
             self.remove_entity(child)
 
     def remove_entity(self, entity: Concatenated | ConcatenatedPropertyGroup):
